@@ -10,6 +10,7 @@ import mc.env as env  # noqa: F401
 
 import hashlib
 import json
+import itertools
 import os
 import shutil
 from pathlib import Path
@@ -288,6 +289,88 @@ def check_exts(_):
         env.rmtree(d)
 
 
+EXT_ROUTES = ("direct", "resume", "stub")
+
+
+def ext_tasks(maxlen):
+    steps = [(r, g) for r in EXT_ROUTES for g in (False, True)]
+    out = []
+    for base_given in (False, True):
+        for n in range(1, maxlen + 1):
+            for seq in itertools.product(steps, repeat=n):
+                out.append((base_given, [list(x) for x in seq]))
+    return out
+
+
+def check_exts_routes(task):
+    """manifest_exts persist until overridden - whatever way the next patch is made:
+    direct  = open r+, write, commit;  resume = open r+, write, close(commit=False), open r+ (continues the patch), commit;
+    stub    = stub from the newest manifest, patch on the stub, patch container + its manifest put next to the real containers.
+    Each step either passes new extensions (which then must be reported) or none (the previous ones must still be reported)."""
+    base_given, seq = task
+    cls = ih5.record_class("mf")
+    d = env.fresh_dir("x")
+    sd = env.fresh_dir("xs")
+    inp = {"cfg": "exts", "history": [], "update": None, "seed": env.seed(), "ext_task": [base_given, seq]}
+    V = lambda det: {"sig": {"kind": "manifest-exts", "routes": "+".join(r for r, _ in seq), "lost_at": seq[len(files) - 2][0] if len(files) > 1 else "base"}, "what": det, "input": inp}  # noqa: E731
+    files = []
+    try:
+        rec = cls(os.path.join(d, "rec"), "w")
+        rec["/a"] = 1
+        expected = {}
+        if base_given:
+            expected = {"base": [0]}
+            rec.commit_patch(manifest_exts=dict(expected))
+        else:
+            rec.commit_patch()
+        files = [Path(p) for p in rec.ih5_files]
+        rec.close()
+        for i, (route, given) in enumerate(seq):
+            kw = {}
+            if given:
+                expected = {"step": i, "route": route}
+                kw = {"manifest_exts": dict(expected)}
+            if route in ("direct", "resume"):
+                r = cls(list(files), "r+")
+                r[f"/n{i}"] = i
+                if route == "resume":
+                    r.close(commit=False)
+                    nf = [Path(p) for p in sorted(os.listdir(d)) if p.endswith(".ih5")]
+                    newest = [Path(d) / p for p in nf if (Path(d) / p) not in files]
+                    r = cls(list(files) + newest, "r+")
+                r.commit_patch(**kw)
+                files = [Path(p) for p in r.ih5_files]
+                r.close()
+            else:
+                newest_manifest = Path(str(files[-1]) + "mf.json")
+                sdir = os.path.join(sd, f"s{i}")
+                os.makedirs(sdir)
+                st = cls.create_stub(Path(sdir) / "stub", newest_manifest)
+                st.create_patch()
+                st[f"/n{i}"] = i
+                st.commit_patch(**kw)
+                pfile = Path(st.ih5_files[-1])
+                st.close()
+                tgt = Path(d) / f"viastub{i}.p.ih5"
+                shutil.copy(pfile, tgt)
+                shutil.copy(str(pfile) + "mf.json", str(tgt) + "mf.json")
+                files = files + [tgt]
+            try:
+                r2 = cls(list(files), "r")
+            except Exception as e:
+                return {"sig": {"kind": "exts-route-broken", "routes": "+".join(r for r, _ in seq)}, "what": f"after step {i} ({route}) the record does not open: {type(e).__name__}: {e}", "input": inp}
+            try:
+                got = r2.manifest.manifest_exts
+                if got != expected:
+                    return V(f"after step {i} ({route}, extensions {'given' if given else 'not given'}): manifest_exts = {got}, expected {expected} (steps {seq}, base extensions {'given' if base_given else 'none'})")
+            finally:
+                r2.close()
+        return None
+    finally:
+        env.rmtree(d)
+        env.rmtree(sd)
+
+
 def _cfgs(seed):
     return {
         "M": treeexp.make_cfg("M", seed, "narrow", copies=False, moves=False, max_containers=3, kind="mf", attr_keys=2),
@@ -327,6 +410,12 @@ def run(tier, seed):
         ve = pool.map("check_exts", [0])[0]
         if ve:
             violations.append(ve)
+        etasks = ext_tasks(2 if q else 3)
+        for t, v in zip(etasks, pool.map("check_exts_routes", etasks, chunk=4, item_deadline=300)):
+            if v == parallel.HANG:
+                violations.append(_viol("hang", "hung", "-", [], None))
+            elif v is not None:
+                violations.append(v)
     cov = {
         "states": len(hs) + len(hsp),
         "transitions": tr + nup,
@@ -338,7 +427,7 @@ def run(tier, seed):
         "rule": f"every deduplicated IH5MFRecord state of the narrow alphabet up to depth {depth} (<=3 containers), in two spellings (second one with prefix-related sibling names); stub from newest manifest; "
         "every update history of existence-based ops (set/grp/del/setattr/delattr/require_group) of length 1"
         + (" (2 for records of <=1 op)" if q else " (2 for records of <=3 ops)")
-        + " applied via stub and directly; manifest link/skeleton check after every commit; manifest_exts chain X,-,Y,-,{}",
+        + " applied via stub and directly; manifest link/skeleton check after every commit; manifest_exts chain X,-,Y,-,{}; manifest_exts through every sequence of <= " + ("2" if q else "3") + " patches made directly / by resuming an uncommitted patch in a new session / via a stub, each with or without new extensions",
     }
     return {
         "level": "model_checking",
@@ -351,6 +440,8 @@ def run(tier, seed):
 def replay(data):
     inp = data["input"]
     treeexp.worker_init(_cfgs(inp.get("seed", 0)))
+    if inp.get("ext_task"):
+        return check_exts_routes((inp["ext_task"][0], [list(x) for x in inp["ext_task"][1]]))
     if inp["cfg"] == "-":
         return check_exts(0)
     up = inp.get("update")
